@@ -348,6 +348,18 @@ Proof.
     destruct (xfer_rest nn ty fca fw rest a (b || negb (mode_eqb (ty x) W))) as [[[m s] a'] b']. cbn [fst snd] in *. exact IH.
 Qed.
 
+Lemma xfer_moved_cases nn ty fca wk p :
+  In p (fst (fst (xfer nn ty fca wk))) -> hd_error wk = Some p \/ nn p = false.
+Proof.
+  unfold xfer. destruct wk as [|f rest]; [intros []|].
+  pose proof (xfer_rest_native nn ty fca (mode_eqb (ty f) W) rest (if fca then mode_eqb (ty f) W else false)
+                (if fca then false else negb (mode_eqb (ty f) W)) p) as IH.
+  destruct (xfer_rest nn ty fca (mode_eqb (ty f) W) rest (if fca then mode_eqb (ty f) W else false)
+              (if fca then false else negb (mode_eqb (ty f) W))) as [[[m s] a] b].
+  cbn [fst snd hd_error] in *. destruct fca; [|intros H; right; exact (IH H)].
+  intros [<- | H]; [left; reflexivity | right; exact (IH H)].
+Qed.
+
 Lemma xfer_moved_native nn ty fca wk p :
   (forall f, hd_error wk = Some f -> nn f = false) -> In p (fst (fst (xfer nn ty fca wk))) -> nn p = false.
 Proof.
@@ -721,7 +733,7 @@ Proof.
       destruct (Nat.eq_dec f t) as [->|Nf]; [rewrite xget_lupd_same by exact Ht; exact Hn|].
       rewrite xget_lupd_other by exact Nf. apply (H0 u f Hu). }
   unfold xget in Hx.
-  destruct o as [o'|m| | |[m|]]; xnorm; rewrite ?Hx; cbn [x_pc x_ops x_rets]; rewrite ?nth_lupd_same by exact Ht; cbn [x_pc x_ops x_rets];
+  destruct o as [o'|m| | |[m|]|m]; xnorm; rewrite ?Hx; cbn [x_pc x_ops x_rets]; rewrite ?nth_lupd_same by exact Ht; cbn [x_pc x_ops x_rets];
     try (apply GEN; [intros f; discriminate | reflexivity]).
   all: destruct (held (get (mw xw) t)) as [m'|]; [destruct (mode_eqb m m')|]; apply GEN; try (intros f; discriminate); reflexivity.
 Qed.
@@ -743,7 +755,7 @@ Proof.
   destruct (mu_idle (mw xw) t) eqn:MI; try exact H0.
   assert (t < length (xthr xw))%nat as Ht by (apply xget_inb; rewrite Hx; discriminate).
   pose proof Hx as Hx'. unfold xget in Hx.
-  destruct o as [o'|m| | |[m|]]; xn Hx; rewrite ?nth_lupd_same by exact Ht; cbn [x_pc x_ops x_rets];
+  destruct o as [o'|m| | |[m|]|m]; xn Hx; rewrite ?nth_lupd_same by exact Ht; cbn [x_pc x_ops x_rets];
     (apply PInv_local; [exact H0 | exact Ht | reflexivity | reflexivity | | | | | ]);
     rewrite ?Hx'; cbn [x_pc wph2 kwl preq xn_rec]; try reflexivity; try discriminate;
     try (intros u; first [apply kof_push_op | reflexivity]).
@@ -954,8 +966,11 @@ Proof.
   - (* XvCas1 *) assert (t < length (xthr xw))%nat as Ht by (apply HtN; discriminate).
     unfold cas. destruct (word (mw xw) =? wake_waiters_cas1_old old); cbv beta iota.
     + pose proof (xfer_perm (nrec xw) (wtype (mw xw)) (first_cant_acquire (wtype (mw xw)) old (k_wake k)) (k_wake k)) as P.
-      pose proof (fun p => xfer_moved_native (nrec xw) (wtype (mw xw)) (first_cant_acquire (wtype (mw xw)) old (k_wake k)) (k_wake k) p
-                            (fun f Hf => HN1 t f ltac:(rewrite Hx'; exact Hf))) as MN.
+      assert (forall p, In p (fst (fst (xfer (nrec xw) (wtype (mw xw)) (first_cant_acquire (wtype (mw xw)) old (k_wake k)) (k_wake k)))) ->
+                        xn_rec (x_pc (xget xw p)) = false) as MN.
+      { intros p Hpm. destruct (xfer_moved_cases _ _ _ _ _ Hpm) as [Hd | Nn].
+        - apply (HN1 t p). rewrite Hx'. exact Hd.
+        - unfold nrec in Nn. apply orb_false_elim in Nn. apply Nn. }
       destruct (xfer (nrec xw) (wtype (mw xw)) (first_cant_acquire (wtype (mw xw)) old (k_wake k)) (k_wake k)) as [[moved stay] set_on].
       cbn [fst snd] in P, MN. cbn [fst]. xn Hx.
       apply (PInv_transfer n) with (stay := stay); auto; try (rewrite Hx'; reflexivity).
@@ -1116,6 +1131,30 @@ Proof.
     + rewrite nth_lupd_same by exact Ht. cbn [x_ops x_rets]. rewrite Em.
       apply (PInv_mu n); auto; rewrite Hx'; reflexivity.
     + rewrite Em. apply (PInv_mu0 n); auto. rewrite Hx'. reflexivity.
+  - (* XgStore *) assert (t < length (xthr xw))%nat as Ht by (apply HtN; discriminate). cbn [fst]. xn Hx.
+    change (negb (nsync_cv_wait_with_deadline_generic_store1_new =? 0)) with true.
+    set (xs' := {| x_pc := XwEnq (mk_xwl m m false false true); x_ops := xo; x_rets := xr |}).
+    set (xw' := mk_xw (set_waiting (mw xw) t true) (cvq xw) (fupd (xferred xw) t false) (lupd (xthr xw) t xs')).
+    assert (forall p, p <> t -> slp xw' p = slp xw p /\ cvs xw' p = cvs xw p /\ kws xw' p = kws xw p /\ xaf xw' p = xaf xw p) as FO.
+    { intros p N. apply flags_other; [exact N | now apply fupd_other | reflexivity]. }
+    assert (slp xw t = false /\ cvs xw t = false) as [St Ct].
+    { unfold slp, slpf, cvs, xaf, kof. rewrite Hx'. cbn [x_pc wph2 xn_rec]. rewrite (proj1 Hp). split; reflexivity. }
+    assert (kws xw' t = []) as Kt by (unfold kws, xw'; rewrite xget_lupd_same by exact Ht; reflexivity).
+    apply (PInv_shrink xw xw' H1).
+    + reflexivity.
+    + intros; reflexivity.
+    + apply HC.
+    + apply incl_refl.
+    + intros u. destruct (Nat.eq_dec u t) as [->|N]; [rewrite Kt; constructor | rewrite (proj1 (proj2 (proj2 (FO u N)))); apply HC].
+    + intros u. destruct (Nat.eq_dec u t) as [->|N]; [rewrite Kt; intros ? [] | rewrite (proj1 (proj2 (proj2 (FO u N)))); apply incl_refl].
+    + intros p Wp Sp. assert (p <> t) as N by congruence. cbn [mw xw' waiting set_waiting].
+      rewrite fupd_other by exact N. rewrite (proj1 (FO p N)). auto.
+    + intros p _ Wp Cp. assert (p <> t) as N by congruence. cbn [mw xw' waiting set_waiting].
+      rewrite fupd_other by exact N. rewrite (proj1 (proj2 (FO p N))). auto.
+    + intros u Hu. cbn [mw xferred xw' waiting set_waiting]. destruct (Nat.eq_dec u t) as [->|N].
+      * rewrite !fupd_same. auto.
+      * unfold xw' in Hu. rewrite xget_lupd_other in Hu by exact N. destruct (HF u Hu).
+        rewrite !fupd_other by exact N. auto.
 Qed.
 End PlacesInvariant2.
 
@@ -1172,7 +1211,7 @@ Proof.
   - (* XkSelect *) assert (t < length (xthr xw))%nat as Ht by (apply HtN; discriminate).
     destruct (if bc then sel_broadcast (xrd xw) (cvq xw) else sel_signal (xrd xw) (cvq xw)) as [[wk kp] allr].
     destruct wk as [|f wk']; [|destruct (nrec xw f) eqn:Nf0]; cbn [fst]; xn Hx; nh HN1 H1 Ht Hx'.
-    cbn [k_wake hd_error] in Hv. inversion Hv. subst. exact Nf0.
+    cbn [k_wake hd_error] in Hv. inversion Hv. subst. unfold nrec in Nf0. apply orb_false_elim in Nf0. apply Nf0.
   - (* XvLoad1 *) assert (t < length (xthr xw))%nat as Ht by (apply HtN; discriminate).
     destruct (xfer_wanted (wtype (mw xw)) (word (mw xw)) k); cbn [fst]; xn Hx;
       [|unfold wake_loop; destruct (k_wake k)]; nh HN1 H1 Ht Hx'.
@@ -1209,6 +1248,7 @@ Proof.
   - (* XnReacq *) assert (t < length (xthr xw))%nat as Ht by (apply HtN; discriminate).
     unfold mu_step. destruct (step (mw xw) t) as [m' e]. xnorm. cbn [mw].
     destruct (mu_pc_idle m' t); cbn [fst]; xn Hx; rewrite ?lupd_lupd; nh HN1 H1 Ht Hx'.
+  - (* XgStore *) assert (t < length (xthr xw))%nat as Ht by (apply HtN; discriminate). cbn [fst]. xn Hx. nh HN1 H1 Ht Hx'.
 Qed.
 
 Lemma xstep_thr_pinv xw0 t c : XInv n xw0 -> PInv xw0 -> PInv (fst (xstep_thr xw0 t c)).
